@@ -2,3 +2,4 @@ import CvxVerif.Model.Proto
 import CvxVerif.Model.OpState
 import CvxVerif.Props.C13
 import CvxVerif.Props.C09
+import CvxVerif.Props.C10
